@@ -62,6 +62,7 @@ def check(ctx: Ctx) -> None:
     # appended DataFile declares
     from .c20 import r2 as c20_r2
     ctx.shared(c20_r2, "C20.R2", "C11.R11", "scans do not depend on the size an append declared")
+    pairwise_checks_compare_lengths(ctx, "C11.R16", ("transaction", "data_operations", "file_manager"))
 
 
 def missing_file_raises(ctx: Ctx, f: FunctionInfo, rid: str, what: str) -> int:
@@ -263,6 +264,22 @@ def inexact_values_rejected(ctx: Ctx, rid: str = "C11.R12") -> None:
             cs = str_consts(ctx, f, x.comparators[0])
             if cs & NO_FRACTION_TYPES:
                 covered |= cs
+    # ... for EVERY field of such a type: the type test is not reached only for required fields (an optional long column is
+    # truncated just the same)
+    tests = [b for b in g.nodes if b.kind == "branch" and b.id in g.reachable() and b.ast is not None and any(
+        isinstance(x, ast.Compare) and len(x.ops) == 1 and isinstance(x.ops[0], (ast.In, ast.NotIn, ast.Eq, ast.NotEq))
+        and str_consts(ctx, f, x.comparators[0]) & NO_FRACTION_TYPES for x in ast.walk(b.ast))]
+    dom_all = ctx.dom(f, NORMAL)
+    for b in tests:
+        gate = [d for d in dom_all.get(b.id, set()) if d != b.id and g.nodes[d].kind == "branch" and g.nodes[d].ast is not None
+                and "required" in norm_text(g.nodes[d].ast) and any(fr.kind == "loop" for fr in g.nodes[d].frames)
+                and [fr.node for fr in g.nodes[d].frames if fr.kind == "loop"][-1:] == [fr.node for fr in b.frames if fr.kind == "loop"][-1:]
+                and any(t_ is None or b.id not in reachable_from(g, t_, {"norm", "true", "false"})
+                        for t_ in (edge_target(g, g.nodes[d], "true"), edge_target(g, g.nodes[d], "false")))]
+        ctx.ob(rid, f, "the type test is applied to optional fields too", b, not gate,
+               "every field is classified by its declared type" if not gate else
+               f"the type test is only reached past `{g.nodes[gate[0]].text[:50]}`: fields that are not required are never checked - 3.5 "
+               "in an optional long column is stored as 3", text="optional")
     miss = sorted(NO_FRACTION_TYPES - covered)
     ctx.ob(rid, f, "the test covers every declared type without a fractional part", None, not miss,
            f"declared types tested: {sorted(covered & NO_FRACTION_TYPES)}" + (f"; not covered: {miss} - a fractional float in such a "
@@ -720,3 +737,37 @@ def r4(ctx: Ctx) -> None:
     adds = [n for n in g.calls() if isinstance(n.ast, ast.Call) and isinstance(n.ast.func, ast.Attribute) and n.ast.func.attr == "add"]
     ctx.ob("C11.R4", f, "the duplicate-detection sets are populated", adds[0] if adds else None,
            bool(dup_sets) and dup_sets <= {norm_text(a.ast.func.value) for a in adds}, f"sets {sorted(dup_sets)}", nontrivial=False)  # type: ignore[union-attr]
+
+
+def pairwise_checks_compare_lengths(ctx: Ctx, rid: str, modules: Tuple[str, ...]) -> None:
+    ctx.rule(rid, "a pairwise comparison covers both sequences whole: `zip(a, b)` stops at the shorter one, so a validator that walks "
+             "`zip(expected, actual)` accepts a file with the table's columns plus one more (or only a leading subset) unless the "
+             "lengths are compared too (`len(a) != len(b)`) or zip is strict - the accepted file then breaks every later scan", 1)
+    n = 0
+    for f in sorted(ctx.prog.functions.values(), key=lambda x: x.qname):
+        if isinstance(f.node, ast.Lambda) or f.module.short not in modules or f.parent is not None:
+            continue
+        nodes = list(ast.walk(f.node))
+        for z in [x for x in nodes if isinstance(x, ast.Call) and isinstance(x.func, ast.Name) and x.func.id == "zip" and len(x.args) >= 2]:
+            if any(k.arg == "strict" and isinstance(k.value, ast.Constant) and k.value.value is True for k in z.keywords):
+                continue
+            # only where the pairs are COMPARED (a validator), not where they are merely combined
+            user = next((p_ for p_ in nodes if isinstance(p_, (ast.For, ast.comprehension)) and any(y is z for y in ast.walk(p_.iter))), None)
+            body = (user.body if isinstance(user, ast.For) else []) if user is not None else []
+            compares = [c for st in body for c in ast.walk(st) if isinstance(c, (ast.Compare, ast.Return, ast.Raise))]
+            if isinstance(user, ast.comprehension):
+                host = next((p_ for p_ in nodes if isinstance(p_, (ast.GeneratorExp, ast.ListComp, ast.SetComp, ast.DictComp)) and user in p_.generators), None)
+                compares = [c for c in ast.walk(host) if isinstance(c, ast.Compare)] if host is not None and not isinstance(host, ast.DictComp) else []
+            if not any(isinstance(c, ast.Compare) for c in compares):
+                continue
+            n += 1
+            a_, b_ = norm_text(z.args[0]), norm_text(z.args[1])
+            lens = [c for c in nodes if isinstance(c, ast.Compare) and len(c.ops) == 1
+                    and {norm_text(x.args[0]) for x in [c.left] + list(c.comparators)
+                         if isinstance(x, ast.Call) and isinstance(x.func, ast.Name) and x.func.id == "len" and x.args} >= {a_, b_}]
+            ctx.ob(rid, f, "zip-based comparison also compares the lengths", None, bool(lens),
+                   f"`{norm_text(z)[:60]}`" + ("" if lens else ": nothing compares len() of the two - the shorter sequence decides"),
+                   text=norm_text(z)[:50], line=z.lineno)
+    if n == 0:
+        ctx.ob(rid, ctx.fn("transaction.Transaction._validate_file_schema"), "no zip-based comparison in the validators", None, True,
+               "nothing to judge", nontrivial=False)
